@@ -137,11 +137,11 @@ def compare_json(model, doc):
     got = {}
     for m in doc.get('merchants', []):
         got[m['name']] = (m['category'], m['subcategory'], tuple(m.get('tags') or []), m['count'], round(m['total'], 2),
-                          tuple(sorted(rid(d) for d in (m.get('raw_descriptions') or {}))))
+                          tuple(sorted(set(rid(d) for d in (m.get('raw_descriptions') or {})))))
     want = {}
     for name, m in model['merchants'].items():
         want[name] = (m['category'], m['subcategory'], tuple(sorted(m['tags'])), len(m['txns']),
-                      round(sum(t['amount'] for t in m['txns']), 2), tuple(sorted(t['id'] for t in m['txns'])))
+                      round(sum(t['amount'] for t in m['txns']), 2), tuple(sorted(set(t['id'] for t in m['txns']))))
     if got != want:
         names = sorted(set(got) ^ set(want))
         if names:
